@@ -12,6 +12,7 @@ mod common;
 mod drive;
 mod lin;
 mod seq;
+mod tk;
 mod props;
 
 use common::{Acc, Args};
@@ -59,10 +60,12 @@ fn main() {
         "C03" => props::c03::run(&args, &mut acc),
         "C04" => props::c04::run(&args, &mut acc),
         "C05" => props::c05::run(&args, &mut acc),
+        "C06" => props::c06::run(&args, &mut acc),
         "C07" => props::c07::run(&args, &mut acc),
         "C08" => props::c08::run(&args, &mut acc),
         "C09" => props::c09::run(&args, &mut acc),
         "C10" => props::c10::run(&args, &mut acc),
+        "C11" => props::c11::run(&args, &mut acc),
         "C13" => props::c13::run(&args, &mut acc),
         "C15" => props::c15::run(&args, &mut acc),
         "C14" => props::c14::run(&args, &mut acc),
